@@ -77,13 +77,12 @@ def project_loc(loc):
     return {"k": "other", "name": type(loc).__name__, "bits": 0, "off": 0, "size": 0}
 
 
-def loc_records(ctx):
+def loc_records(ctx, thorough):
     from ppci import ir
     from ppci.api import get_arch
 
     arch = get_arch("x86_64")
     rng = random.Random("%d:c40:locs" % ctx.seed)
-    thorough = ctx.tier == "thorough"
     recs = []
     maxp = 12
 
@@ -348,7 +347,7 @@ def compile_c(src):
     from ppci import api
 
     try:
-        obj = api.cc(io.StringIO(src), "x86_64")
+        obj = native.limited(lambda: api.cc(io.StringIO(src), "x86_64"), native.COMPILE_LIMIT_S, "x86_64 cc")
     except Exception as e:
         return None, "error:codegen:" + type(e).__name__
     try:
@@ -461,6 +460,10 @@ def _link_run(wd, base, members):
         paths.append(p)
     exe, err = native.gcc_link(wd, base + paths)
     if exe is None:
+        alone, err0 = native.gcc_link(wd, base)     # must link without any ppci object (weak references)
+        if alone is None:
+            raise MachineryError("gcc cannot link the driver by itself: %s" % err0[:1500])
+        os.unlink(alone)
         if len(members) <= 1:
             return {tid: ([], "link", 0) for tid, _ in members}
         h = len(members) // 2
@@ -517,6 +520,8 @@ class Engine:
         ctx.assume("gcc 12 is a System V ABI conforming compiler; the assembly spy / trampoline in engines/c40.py record "
                    "registers faithfully; float values are exactly representable and compared as bit patterns")
         only = (ctx.only or {}).get("key")
+        if ctx.only is not None:
+            thorough = ctx.only.get("tier", ctx.tier) == "thorough"      # rebuild the corpus of the tier that found it
         if ctx.only is None:
             maxp = 12 if thorough else 10
             res = ctx.tlc("X64Abi_MC", MC_CFG % maxp, label="psABI assignment machine, all signatures <= %d" % maxp, workers=4)
@@ -526,7 +531,7 @@ class Engine:
                 raise MachineryError("X64Abi_MC explored %d signatures, expected %d" % (res.distinct, 2 ** (maxp + 1) - 1))
         import time
         t0 = time.time()
-        recs = loc_records(ctx)
+        recs = loc_records(ctx, thorough)
         sigs = gen_signatures(ctx, 400 if thorough else 80)
         t1 = time.time()
         calls = run_native(ctx, sigs)
